@@ -256,6 +256,34 @@ fn snapshot_cases(ctx: &Ctx) -> Vec<(Case, bool)> {
             ]),
             pv(var("xs")),
         ]),
+        ("container written by a called function, no assignment in the body", vec![
+            declare(var("xs"), list(vec![int(1), int(2), int(3), int(4)])),
+            fn_decl("poke", vec![var("i"), var("v")], false, vec![assign(index(var("xs"), var("i")), var("v"))]),
+            for_(list(vec![var("i"), var("x")]), var("xs"), vec![if_(bin(Op::Eq, var("i"), int(0)), vec![expr_stmt(call(var("poke"), vec![int(2), int(30)])), expr_stmt(call(var("poke"), vec![int(3), int(40)]))], None), pv(var("x"))]),
+            pv(var("xs")),
+        ]),
+        ("container written by a closure stored earlier", vec![
+            declare(var("ob"), obj(vec![pair("a", int(1)), pair("b", int(2)), pair("c", int(3))])),
+            declare(var("bump"), func(vec![var("k")], false, vec![assign(index(var("ob"), var("k")), int(99))])),
+            for_(list(vec![var("k"), var("v")]), var("ob"), vec![expr_stmt(call(var("bump"), vec![string("c")])), pv(list(vec![var("k"), var("v")]))]),
+            pv(var("ob")),
+        ]),
+        ("container written by its own method", vec![
+            declare(var("box"), obj(vec![pair("items", list(vec![int(1), int(2), int(3)])), pair("set", func(vec![var("i"), var("v")], false, vec![assign(index(prop(var("this"), "items"), var("i")), var("v"))]))])),
+            for_(list(vec![var("i"), var("v")]), prop(var("box"), "items"), vec![expr_stmt(call(prop(var("box"), "set"), vec![int(2), int(77)])), pv(var("v"))]),
+            pv(prop(var("box"), "items")),
+        ]),
+        ("container written through an alias inside the body", vec![
+            declare(var("xs"), list(vec![int(1), int(2), int(3)])),
+            declare(var("ys"), var("xs")),
+            for_(list(vec![var("i"), var("v")]), var("xs"), vec![declare(var("zs"), var("ys")), expr_stmt(call(func(vec![var("t")], false, vec![assign(index(var("t"), int(2)), int(50))]), vec![var("zs")])), pv(var("v"))]),
+            pv(var("xs")),
+        ]),
+        ("string / range iterables are values", vec![
+            declare(var("n"), int(3)),
+            for_(list(vec![var("i"), var("v")]), range(int(0), var("n")), vec![assign(var("n"), int(10)), pv(var("v"))]),
+            pv(var("n")),
+        ]),
         ("while condition re-evaluated with side effects", vec![
             declare(var("n"), int(0)),
             fn_decl("tick", vec![], false, vec![op_assign(var("n"), Op::Sum, int(1)), pv(var("n")), ret(var("n"))]),
